@@ -82,7 +82,7 @@ Definition mout (d : dty) (c : opcase) : iout :=
   | CFlip n x => one_row (m_flip d n x)
   | CRoll n sh x => one_row (m_roll d n sh x)
   | CRollT rows => many_rows (m_roll_tuple d rows)
-  | CGetitem n start stop step x => one_row (m_getitem d start stop step x)
+  | CGetitem n start stop step x => one_row (m_getitem d n start stop step x)
   | CReshape lin shape => many_rows (m_reshape d lin shape)
   | CReduce g x => match m_grouped_sum d g x with Ok l => IPairs l | Raise e => IExc e end
   | CTri lower nr r x k =>
